@@ -1,26 +1,8 @@
 (* C01 — Fejer's first rule as coded (series truncated at nsum-1 terms) and with the full series *)
 From Coq Require Import Reals Arith Lia Lra Bool.
-From P Require Import C01_gen C01_model C01_proofs_sums C01_proofs_trig.
+From Coquelicot Require Import Coquelicot.
+From P Require Import C01_gen C01_model C01_proofs_sums C01_proofs_trig C01_proofs_poly.
 Open Scope R_scope.
-
-(* sum over the series index with a single surviving (even) frequency *)
-Lemma pick_even T m (beta : nat -> R) c :
-  rsum T (fun jj => beta jj * (if (2 * (jj + 1) =? m)%nat then c else 0))
-  = if (Nat.even m && (1 <=? m / 2) && (m / 2 <=? T))%nat then beta (m / 2 - 1)%nat * c else 0.
-Proof.
-  destruct (Nat.Even_or_Odd m) as [[i ->]|[i ->]].
-  - replace (2 * i / 2)%nat with i by (rewrite Nat.mul_comm, Nat.div_mul; lia).
-    rewrite Nat.even_mul. cbn [andb].
-    destruct (Nat.leb_spec 1 i) as [Hi|Hi]; cbn [andb].
-    + rewrite (rsum_ext T _ (fun jj => if (jj =? i - 1)%nat then beta jj * c else 0)).
-      2:{ intros jj _. destruct (Nat.eqb_spec (2 * (jj + 1)) (2 * i)); destruct (Nat.eqb_spec jj (i - 1)); try lia; ring. }
-      destruct (Nat.leb_spec i T) as [HT|HT].
-      * apply (rsum_pick T (i - 1) (fun jj => beta jj * c)). lia.
-      * apply rsum_pick_none. lia.
-    + apply rsum_zero. intros jj _. destruct (Nat.eqb_spec (2 * (jj + 1)) (2 * i)); [lia|ring].
-  - replace (Nat.even (2 * i + 1)) with false by (rewrite Nat.even_add, Nat.even_mul; reflexivity).
-    cbn [andb]. apply rsum_zero. intros jj _. destruct (Nat.eqb_spec (2 * (jj + 1)) (2 * i + 1)); [lia|ring].
-Qed.
 
 (* weights with T series terms, in the unreversed node order *)
 Definition f1_w (T n i : nat) : R := (1 - f1_di T n i) * (2 / INR n).
@@ -152,3 +134,17 @@ Qed.
 
 Example fejer1_hyp_sat : (2 <= 4)%nat /\ (3 <= 4 - 1)%nat /\ (Nat.even 4 = true \/ 3 < 4 - 1)%nat.
 Proof. repeat split; try lia. left. reflexivity. Qed.
+
+(* the code's Fejer-1 rule: every polynomial of degree <= n-2, and <= n-1 when n is even *)
+Lemma fejer1_exact_poly_partial_thm n f : (2 <= n)%nat ->
+  pspan (if Nat.even n then n - 1 else n - 2)%nat f ->
+  is_RInt f (-1) 1 (rsum n (fun k => wts_FejerFirst n k * f (pts_FejerFirst n k))).
+Proof.
+  intros Hn Hf. apply (quad_exact_on_span n (if Nat.even n then n - 1 else n - 2)%nat); [|exact Hf].
+  intros m Hm. apply fejer1_exact_partial_lemma; [exact Hn| |]; destruct (Nat.even n); try lia; left; reflexivity.
+Qed.
+
+Lemma fejer1_fixed_poly_thm n f : (1 <= n)%nat -> pspan (n - 1) f ->
+  is_RInt f (-1) 1 (rsum n (fun k => wts_FejerFirst_full n k * f (pts_FejerFirst n k))).
+Proof. intros Hn Hf. apply (quad_exact_on_span n (n - 1)); [|exact Hf]. intros m Hm. apply fejer1_fixed_exact_lemma; assumption. Qed.
+
